@@ -121,8 +121,11 @@ def get(tier, seed):
         with open(f + ".tmp", "w") as fh:
             json.dump({"vchk_mtime": stamp, "results": results}, fh, default=str)
         os.replace(f + ".tmp", f)
-        for old in sorted(x for x in os.listdir(d) if x.startswith("src-"))[:-4]:
-            os.remove(os.path.join(d, old))
+        olds = sorted((x for x in os.listdir(d) if x.startswith("src-") and x.endswith(".json")),
+                      key=lambda x: os.path.getmtime(os.path.join(d, x)))
+        for old in olds[:-4]:
+            if os.path.join(d, old) != f:
+                os.remove(os.path.join(d, old))
         return json.load(open(f))["results"]
     finally:
         fcntl.flock(lock, fcntl.LOCK_UN)
